@@ -638,7 +638,12 @@ Redirect(d) ==
     /\ ~c.tgt[d].on \/ Len(c.tgt[d].gens) + 1 < MaxRedir
     /\ LET c2 == RunReaders(DoRedirect(c, d)) IN
          /\ Settle(c2)
-         /\ hist' = Hist(<<"redirect", d, c2.fin>>)
+         \* with the buffer state the redirection meets: chunks buffered in the
+         \* stream, reading paused, chunks / EOF / CLOSE parked in the channel,
+         \* target already installed
+         /\ hist' = Hist(<<"redirect", d, c2.fin,
+                           <<Len(c.buf[d]), c.rp, Len(c.cbuf), c.ceof = "pending",
+                             c.ccl = "pending", c.tgt[d].on>> >>)
     /\ UNCHANGED <<S, sent, eofSent, exitSent, closeSent, wire, ncalls>>
 
 Terminal ==
